@@ -36,7 +36,7 @@ VARIANTS = ["plain", "soft", "meta", "blank"]
 REQUIRED_ACTS = {
     "Make", "NewickRT", "NewickNamesRT", "NewickDefaultRT", "DndRT", "JsonRT", "RichDictRT", "Copy", "DeepCopy",
     "CopyModule", "Sorted", "SortedRev", "RootedAt", "RootedWithTip", "Unrooted", "SubTree", "RootAtMidpoint",
-    "Prune", "Bifurcating",
+    "Prune", "Bifurcating", "Query",
 }
 
 
